@@ -23,6 +23,7 @@ func checkC07(p *Prog, res *Result, tier string) {
 	res.rule("C07-R3", "previous version only when superseded; marker never deleted before the version it hides", 2)
 	res.rule("C07-R4", "skip test before each engine delete; failures reach the skipped-key update; non-CAS errors set the skipped key", 5)
 	res.rule("C07-R5", "compaction revision clamp (C09-R2)", 1)
+	res.rule("C07-R7", "the compaction scan covers every record of its interval: partition borders contiguous and realigned to index keys (C13-R5)", 2)
 	res.rule("C07-R6", "every adapter's compare-and-delete compares the stored value / version before deleting (C11-R1); the metrics wrapper forwards deletes unchanged and returns their error (C11-R5)", 6)
 
 	compactF := p.structField("pkg/backend/scanner", "workerConfig", "compact")
@@ -476,6 +477,13 @@ func checkC07(p *Prog, res *Result, tier string) {
 			res.add("C07-R6", o.Rule+" "+o.Construct, o.Status, o.Pos, o.Detail)
 		}
 	}
+	// ---- R7: the compaction scan sees every record (C13-R5) ----
+	sub13 := newResult("C13")
+	checkBorderContiguity(p, r, sub13, sp)
+	for _, o := range sub13.Obls {
+		res.add("C07-R7", o.Rule+" "+o.Construct, o.Status, o.Pos, o.Detail)
+	}
+
 }
 
 // userKeyProvenance: 1 = v is a decoded user key (result #0 of Coder.Decode, or a loop-carried copy of one),
